@@ -22,7 +22,9 @@ ASSUMPTIONS = [
     'sorted(key=lambda), isinstance, f-strings and subscripts into primitives whose meaning is fixed in Model/PrimsApi.v '
     '(trusted): a statement is the list of nodes walk() yields, id(node) is the node\'s source position (two placeholders '
     'never share one), the exception kind of a raise is a function of the class and the leading constant text of the message, '
-    'message texts and methods of other objects (cursor.execute, Compiler.compile seen from compiler.compile) are uninterpreted',
+    'message texts and methods of other objects (cursor.execute, Compiler.compile seen from compiler.compile) are uninterpreted; '
+    'C09_source_connection_init covers the leading self.<attr> = ... statements of Connection.__init__ (selected by structure); '
+    'attach() (importlib, the data source) is outside the fragment',
 ]
 IMPORTS = c01.IMPORTS + ['Model.Params']
 MARK = '\x00'
@@ -476,6 +478,50 @@ def show_history(h):
     return '; '.join(out)
 
 
+IMMUTABLE_DIFF = []
+
+
+def _freeze(v, depth=0):
+    """a deep, order-preserving, comparable snapshot of a data container (dict order and defaulting behaviour included)"""
+    if isinstance(v, dict):
+        return ('dict', type(v).__name__, [(_freeze(k, depth + 1), _freeze(x, depth + 1)) for k, x in list(v.items())])
+    if isinstance(v, (list, tuple)):
+        return (type(v).__name__, [_freeze(x, depth + 1) for x in v])
+    if isinstance(v, (set, frozenset)):
+        return ('set', sorted(repr(_freeze(x, depth + 1)) for x in v))
+    return repr(v)
+
+
+def table_fingerprint(conn):
+    """{table name: {'attr:<name>': snapshot of every instance attribute of the table object (the containers its rows and the
+    context functions are served from), 'rows': what iterating the table yields}} for every table of the connection"""
+    fp = {}
+    for name, t in conn.tables.items():
+        d = {}
+        for k, v in sorted(getattr(t, '__dict__', {}).items()):
+            d['attr:' + k] = _freeze(v)
+        try:
+            d['rows'] = [repr(r) for r in t]
+        except Exception as e:  # noqa: BLE001
+            d['rows'] = 'iteration raises ' + type(e).__name__
+        fp[name or '(default)'] = d
+    fp['(tables)'] = {'names': sorted(conn.tables)}
+    return fp
+
+
+def fingerprint_diff(a, b):
+    out = []
+    for name in sorted(set(a) | set(b)):
+        da, db = a.get(name, {}), b.get(name, {})
+        for k in sorted(set(da) | set(db)):
+            if da.get(k) != db.get(k):
+                x, y = da.get(k), db.get(k)
+                nx = len(x[-1]) if isinstance(x, tuple) else len(x) if isinstance(x, list) else None
+                ny = len(y[-1]) if isinstance(y, tuple) else len(y) if isinstance(y, list) else None
+                out.append(f'#{name} {k}: {nx} -> {ny} items' if nx != ny else f'#{name} {k}: content changed')
+    return out
+
+
 def ledger_immutable():
     """Executing never mutates the source data: entries of a beancount connection before/after a workload."""
     import os
@@ -506,7 +552,8 @@ def ledger_immutable():
         conn = impl.beanquery.connect('beancount:' + path)
         ents = conn.tables['entries'].entries if hasattr(conn.tables['entries'], 'entries') else None
         before = copy.deepcopy(ents)
-        work = ['SELECT account, sum(position) GROUP BY account', 'SELECT balance, balance WHERE number > 0',
+        before_tables = table_fingerprint(conn)
+        work = LOOKUP_STATEMENTS + READER_STATEMENTS + ['SELECT account, sum(position) GROUP BY account', 'SELECT balance, balance WHERE number > 0',
                 'SELECT date, narration FROM OPEN ON 2020-02-01 CLOSE ON 2020-03-15 CLEAR',
                 'BALANCES AT cost FROM year = 2020', 'JOURNAL "Cash"', 'SELECT * FROM #entries', 'SELECT * FROM #prices',
                 'SELECT account, any_meta(\'m\') FROM #postings ORDER BY 1 DESC',
@@ -514,11 +561,12 @@ def ledger_immutable():
         bad = []
         for q in work:
             try:
-                conn.execute(q, ['Assets:Cash'] if '%s' in q else None).fetchall()
+                conn.execute(q, LEDGER_PARAMS.get(q, ['Assets:Cash'] if '%s' in q else None)).fetchall()
             except Exception as e:  # noqa: BLE001
                 bad.append(f'{q}: {e!r}')
         same = ents is None or before == ents
-        return same, bad, len(work)
+        IMMUTABLE_DIFF[:] = fingerprint_diff(before_tables, table_fingerprint(conn))
+        return same and not IMMUTABLE_DIFF, bad, len(work)
     finally:
         os.unlink(path)
 
@@ -541,6 +589,41 @@ LEDGER_STATEMENTS = [
     "SELECT date FROM has_account('(assets):(c)')",
     'SELECT account FROM #postings WHERE account IN (SELECT account FROM CLOSE ON 2020-02-15)',
 ]
+# (fix-D) look-ups in the per-connection maps behind #accounts / #commodities / #prices with keys that have NO directive
+# (parent / root / leaf of an account, literal and parameter names, undeclared currencies, unknown price pairs), and readers of
+# those tables: a look-up must not leave anything behind in the table it consulted
+N_PLAIN_LEDGER_STATEMENTS = len(LEDGER_STATEMENTS)
+LOOKUP_STATEMENTS = [
+    'SELECT DISTINCT account, open_date(parent(account)) AS d ORDER BY account',
+    'SELECT DISTINCT root(account, 1) AS r, close_date(root(account, 1)) AS d ORDER BY r',
+    "SELECT open_date('Assets:Nope') AS a, close_date('Assets:Nope') AS b, open_meta('Assets:Nope', 'k') AS c FROM #",
+    "SELECT open_date('Assets') AS a FROM #postings",
+    "SELECT open_date(%s) AS a, open_meta(%s, 'x') AS m FROM #",
+    'SELECT close_date(%(a)s) AS c, open_date(%(b)s) AS o FROM #',
+    "SELECT account, open_meta(leaf(account), 'x') AS m FROM #postings WHERE number > 0",
+    "SELECT currency, currency_meta(currency, 'name') AS m, commodity_meta('XYZ', 'name') AS x FROM #postings",
+    "SELECT currency_meta(%s, 'name') AS m FROM #",
+    "SELECT getprice('XYZ', 'USD') AS p, getprice('ABC', 'EUR', 2020-03-05) AS q, getprice(%s, 'USD') AS r FROM #",
+    "SELECT convert(position, 'EUR') AS v, convert(position, 'USD', 2019-01-01) AS w FROM #postings",
+    'SELECT account, open_date(parent(account)) AS d FROM #accounts',
+]
+READER_STATEMENTS = [
+    'SELECT account, open.date AS o, close.date AS c FROM #accounts',
+    'SELECT count(*) AS n FROM #accounts',
+    'SELECT account, open_date(account) AS o, close_date(account) AS c FROM #accounts ORDER BY account',
+    'SELECT name, date FROM #commodities',
+    'SELECT count(*) AS n FROM #commodities',
+    'SELECT date, currency, amount FROM #prices',
+    "SELECT getprice('ABC', 'USD') AS p FROM #",
+    'SELECT account FROM #postings WHERE account IN (SELECT account FROM #accounts)',
+]
+LEDGER_PARAMS = {
+    "SELECT open_date(%s) AS a, open_meta(%s, 'x') AS m FROM #": ['Liabilities:Card', 'Equity'],
+    'SELECT close_date(%(a)s) AS c, open_date(%(b)s) AS o FROM #': {'a': 'Expenses', 'b': 'Income:Job:Bonus'},
+    "SELECT currency_meta(%s, 'name') AS m FROM #": ['CHF'],
+    "SELECT getprice('XYZ', 'USD') AS p, getprice('ABC', 'EUR', 2020-03-05) AS q, getprice(%s, 'USD') AS r FROM #": ['NOPE'],
+}
+LEDGER_STATEMENTS = LEDGER_STATEMENTS + LOOKUP_STATEMENTS + READER_STATEMENTS
 LEDGER_SRC = '''option "operating_currency" "USD"
 2020-01-01 open Assets:Cash
 2020-01-01 open Income:Job
@@ -607,21 +690,75 @@ def ledger_param_statements():
     return len(LEDGER_PARAM_STATEMENTS), bad
 
 
+# (fix-D) a look-up made WHILE the consulted table is being scanned: `SELECT key, f(g(key)) FROM #table` has to return, for every
+# key of the table, what `SELECT f(g(%s)) FROM #` returns for that key (the same query spelled row by row, each on a
+# connection of its own); in particular it may not fail
+SCAN_LEDGER_EXTRA = '2020-01-01 commodity USD\n  name: "Dollar"\n2020-01-01 commodity ABC\n2020-06-01 close Assets:Stock\n'
+SCAN_LOOKUPS = [
+    ('accounts', 'account', ['open_date(parent({}))', 'close_date(root({}, 1))', "open_meta(parent({}), 'x')", 'open_date({})',
+                             'close_date({})', 'open_date(leaf({}))', "open_meta(root({}, 1), 'k')"]),
+    ('commodities', 'name', ["currency_meta({}, 'name')", "commodity_meta(lower({}), 'name')", "getprice({}, 'USD')", "getprice({}, 'CHF')",
+                             "getprice(lower({}), 'USD', 2020-03-05)"]),
+    ('prices', 'currency', ["getprice({}, 'EUR')", "getprice('EUR', {})", "currency_meta({}, 'name')"]),
+    ('postings', 'account', ['open_date(parent({}))', "open_meta(leaf({}), 'x')"]),
+]
+
+
+def scan_lookup_cases():
+    return [(t, key, e) for t, key, exprs in SCAN_LOOKUPS for e in exprs]
+
+
+def run_scan_lookup(case):
+    import os
+    t, key, e = case
+    path = _ledger_path(LEDGER_SRC + SCAN_LEDGER_EXTRA)
+    try:
+        def conn():
+            return impl.beanquery.connect('beancount:' + path)
+        scan = f'SELECT {key} AS k, {e.format(key)} AS v FROM #{t}'
+        try:
+            got = [0, [repr(tuple(r)) for r in conn().execute(scan).fetchall()]]
+        except Exception as ex:  # noqa: BLE001
+            got = ['exception', impl.exc_class(ex), str(ex)[:120]]
+        try:
+            keys = [r[0] for r in conn().execute(f'SELECT {key} AS k FROM #{t}').fetchall()]
+            one = f'SELECT {e.format("%s")} AS v FROM #'
+            want = [0, [repr((k, conn().execute(one, [k]).fetchall()[0][0])) for k in keys]]
+        except Exception as ex:  # noqa: BLE001
+            want = ['exception', impl.exc_class(ex), str(ex)[:120]]
+        return scan, got, want
+    finally:
+        os.unlink(path)
+
+
 def gen_ledger_history(rng):
     return [rng.randrange(len(LEDGER_STATEMENTS)) for _ in range(rng.randint(2, 7))]
 
 
-def _ledger_path():
+def gen_lookup_history(rng):
+    """look-ups of keys without a directive, then readers of the tables behind them (and again): indexes into LEDGER_STATEMENTS"""
+    lo = N_PLAIN_LEDGER_STATEMENTS
+    mid = lo + len(LOOKUP_STATEMENTS)
+    h = []
+    for _ in range(rng.randint(1, 2)):
+        h += [rng.randrange(lo, mid) for _ in range(rng.randint(1, 3))]
+        h += [rng.randrange(mid, len(LEDGER_STATEMENTS)) for _ in range(rng.randint(1, 2))]
+        if rng.random() < 0.3:
+            h.append(rng.randrange(lo))
+    return h
+
+
+def _ledger_path(src=None):
     import tempfile
     f = tempfile.NamedTemporaryFile('w', suffix='.beancount', delete=False)
-    f.write(LEDGER_SRC)
+    f.write(LEDGER_SRC if src is None else src)
     f.close()
     return f.name
 
 
 def _run_ledger_stmt(conn, text):
     try:
-        cur = conn.execute(text)
+        cur = conn.execute(text, LEDGER_PARAMS.get(text))
         return [0, [repr(r) for r in cur.fetchall()]]
     except Exception as e:  # noqa: BLE001
         return ['exception', impl.exc_class(e), str(e)[:120]]
@@ -795,7 +932,7 @@ def _run_step(conn, cur, how, text):
             desc, rows = query_execute.execute_query(q)
             return [0, [d.name for d in desc], [repr(r) for r in rows]]
         c = cur if how == 'cursor' else conn.cursor()
-        c.execute(text)
+        c.execute(text, LEDGER_PARAMS.get(text))
         return [0, [d.name for d in c.description], [repr(r) for r in c.fetchall()]]
     except Exception as e:  # noqa: BLE001
         return ['exception', impl.exc_class(e), str(e)[:120]]
@@ -917,8 +1054,9 @@ def run(tier, rng):
                                              f'connection gives {want}', {'kind': 'same-cursor', 'history': h, 'got': got, 'want': want},
                                              signature=sig))
     lh = [gen_ledger_history(rng) for _ in range(60 if tier == 'quick' else 600)]
-    nst = len(LEDGER_STATEMENTS)
-    lh = [[2, 1], [4, 3], [10, 9], [6, 5], [0, 2, 0], [nst - 3, nst - 4], [nst - 4, nst - 3, nst - 4], [nst - 1, nst - 2], [nst - 2, nst - 1]] + lh
+    nst = N_PLAIN_LEDGER_STATEMENTS
+    lkh = [gen_lookup_history(rng) for _ in range(40 if tier == 'quick' else 400)]
+    lh = [[2, 1], [4, 3], [10, 9], [6, 5], [0, 2, 0], [nst - 3, nst - 4], [nst - 4, nst - 3, nst - 4], [nst - 1, nst - 2], [nst - 2, nst - 1]] + lh + lkh
     want_table = dict(zip(range(len(LEDGER_STATEMENTS)), fresh_process_map(_fresh_stmt, range(len(LEDGER_STATEMENTS)))))
     for h, got in zip(lh, fresh_process_map(_history_got, lh)):
         want = [want_table[i] for i in h]
@@ -930,6 +1068,12 @@ def run(tier, rng):
                                              f'{LEDGER_STATEMENTS[h[k]]!r} returns {got[k]} but a fresh connection returns {want[k]}',
                                              {'kind': 'ledger-history', 'statements': [LEDGER_STATEMENTS[i] for i in h], 'got': got, 'want': want},
                                              signature=sig))
+    scases = scan_lookup_cases()
+    for case, (scan, got, want) in zip(scases, fresh_process_map(run_scan_lookup, scases)):
+        if got != want:
+            violations.append(core.Violation('scan-lookup', f'{scan} returns {got}, but key by key (SELECT ... FROM # with the key as parameter) '
+                                             f'the rows are {want}', {'kind': 'scan-lookup', 'case': list(case), 'got': got, 'want': want},
+                                             signature='scan-lookup:' + scan))
     nlp, lpbad = ledger_param_statements()
     for ptext, params, a, b in lpbad[:2]:
         violations.append(core.Violation('params-as-literals', f'{ptext} {params!r}: with parameters {a}, with literals {b}',
@@ -1014,15 +1158,20 @@ def run(tier, rng):
                                                  signature=sig))
     same, bad, nwork = ledger_immutable()
     if not same:
-        violations.append(core.Violation('data-mutated', 'ledger entries differ after executing the workload',
-                                         {'kind': 'ledger'}, signature='ledger-mutated'))
+        violations.append(core.Violation('data-mutated', 'ledger entries / the data containers of the connection\'s tables differ after '
+                                         f'executing the workload: {IMMUTABLE_DIFF[:4] or "entries"}',
+                                         {'kind': 'ledger', 'diff': list(IMMUTABLE_DIFF)}, signature='ledger-mutated'))
     distinct = len({c['ptext'] + repr(c['params']) for c in pc}) + len({c['littext'] for c in fc}) + len({show_history(h) for h in hs})
     nontrivial = len({c['ptext'] + repr(c['params']) for c in pc if c['nph'] >= 2}) + \
         len({show_history(h) for h in hs if sum(o[0] in ('exec_ast', 'exec_many') for o in h) >= 2})
     cov = {
-        'evaluations': len(pc) + len(fc) + len(hs) + nwork + len(bc) + len(sc) + len(lh) + len(lc) + rcov['rejected_statement_histories'],
+        'evaluations': len(pc) + len(fc) + len(hs) + nwork + len(bc) + len(sc) + len(lh) + len(scases) + len(lc) + rcov['rejected_statement_histories'],
         'list_parameter_cases': len(lc), 'list_parameter_histogram': list_hist, 'ledger_param_statements': nlp, **rcov,
-        'binding_order_cases': len(bc), 'same_cursor_histories': len(sc), 'ledger_histories': len(lh), 'distinct_nontrivial': nontrivial,
+        'binding_order_cases': len(bc), 'same_cursor_histories': len(sc), 'ledger_histories': len(lh),
+        'ledger_lookup_histories': len(lkh), 'ledger_lookup_statements': len(LOOKUP_STATEMENTS), 'ledger_reader_statements': len(READER_STATEMENTS),
+        'ledger_history_lookup_then_reader_pairs': sum(1 for h in lh for x, y in zip(h, h[1:]) if nst <= x < nst + len(LOOKUP_STATEMENTS) <= y),
+        'scan_lookup_statements': len(scases), 'immutability_workload_statements': nwork,
+        'immutability_fingerprint': 'every instance attribute (deep, order-preserving) and the iterated rows of every table object of the connection', 'distinct_nontrivial': nontrivial,
         'rule': '(a) random statements whose constants are replaced by %s / %(name)s placeholders (targets, WHERE, ORDER BY '
                 'expressions, wrapped in a subquery; repeated names) compared with the literal form and the model; (b) random constant '
                 'expressions evaluated folded vs per row from a one-row table of constant columns vs model; (c) random histories of '
@@ -1034,7 +1183,10 @@ def run(tier, rng):
                 'expressions; unknown column, function, ORDER BY / GROUP BY index, misplaced aggregate) and PRINT, run through '
                 'Connection.execute, one shared cursor and Connection.compile (the shell route), interleaved with statements on the '
                 'default table: every step equals the step alone on a fresh connection in a fresh process; '
-                '(d) ledger entries deep-compared before/after a workload; non-trivial = distinct '
+                '(d) ledger entries and every data container / the iterated rows of every table object of the connection deep-compared '
+                'before/after a workload (incl. account / commodity / price look-ups of keys without a directive); (c3) such look-ups '
+                'followed by readers of #accounts / #commodities / #prices in ledger histories, and look-ups made while the consulted '
+                'table is scanned vs the same look-up key by key; non-trivial = distinct '
                 'statement with >=2 placeholders or history with >=2 executions of a stored/parsed-once statement',
         'samples': [pc[0]['ptext'] + ' ' + repr(pc[0]['params']), 'SELECT ' + fc[0]['littext'], show_history(hs[2])],
         'traces_validated_against_impl': len(hs), 'placeholder_count_histogram': nph_hist,
@@ -1059,6 +1211,14 @@ def replay(rec):
         return res == exp and unchanged
     if rec.get('kind') == 'ledger':
         return ledger_immutable()[0]
+    if rec.get('kind') == 'scan-lookup':
+        _, got, want = fresh_process_map(run_scan_lookup, [tuple(rec['case'])])[0]
+        return got == want
+    if rec.get('kind') == 'ledger-history':
+        idx = [LEDGER_STATEMENTS.index(t) for t in rec['statements'] if t in LEDGER_STATEMENTS]
+        if len(idx) != len(rec['statements']):
+            return True          # recorded by an older statement list
+        return fresh_process_map(_history_got, [idx])[0] == fresh_process_map(_fresh_stmt, idx)
     if rec.get('kind') == 'param-case':
         return replay_param_record(rec)
     if rec.get('kind') == 'rejected-history':
